@@ -451,7 +451,11 @@ impl Node {
     async fn send_remote(&self, to: &ExternalPid, message: OwnedTerm) -> Result<()> {
         let node_name = to.node.as_str();
 
-        if let Some(conn) = self.connections.get(node_name) {
+        let conn = self
+            .connections
+            .get(node_name)
+            .map(|entry| Arc::clone(entry.value()));
+        if let Some(conn) = conn {
             let from = self
                 .pid_allocator
                 .allocate()
@@ -477,7 +481,11 @@ impl Node {
         } else {
             let node_name = to.node.as_str();
 
-            if let Some(conn) = self.connections.get(node_name) {
+            let conn = self
+            .connections
+            .get(node_name)
+            .map(|entry| Arc::clone(entry.value()));
+        if let Some(conn) = conn {
                 let mut conn_guard = conn.lock().await;
                 conn_guard.link(from, to).await?;
                 Ok(())
@@ -500,7 +508,11 @@ impl Node {
         } else {
             let node_name = to.node.as_str();
 
-            if let Some(conn) = self.connections.get(node_name) {
+            let conn = self
+            .connections
+            .get(node_name)
+            .map(|entry| Arc::clone(entry.value()));
+        if let Some(conn) = conn {
                 let unlink_id = self.reference_counter.fetch_add(1, Ordering::SeqCst) as u64;
                 let mut conn_guard = conn.lock().await;
                 conn_guard.unlink(from, to, unlink_id).await?;
@@ -533,7 +545,11 @@ impl Node {
         } else {
             let node_name = to.node.as_str();
 
-            if let Some(conn) = self.connections.get(node_name) {
+            let conn = self
+            .connections
+            .get(node_name)
+            .map(|entry| Arc::clone(entry.value()));
+        if let Some(conn) = conn {
                 let mut conn_guard = conn.lock().await;
                 conn_guard.monitor(from, to, &reference).await?;
                 Ok(reference)
@@ -557,7 +573,11 @@ impl Node {
         } else {
             let node_name = to.node.as_str();
 
-            if let Some(conn) = self.connections.get(node_name) {
+            let conn = self
+            .connections
+            .get(node_name)
+            .map(|entry| Arc::clone(entry.value()));
+        if let Some(conn) = conn {
                 let mut conn_guard = conn.lock().await;
                 conn_guard.demonitor(from, to, reference).await?;
                 Ok(())
@@ -667,7 +687,11 @@ impl Node {
         tracing::debug!("RPC reply_to_pid: {:?}", reply_to_pid);
 
         tracing::trace!("Looking up connection for node: {}", remote_node);
-        if let Some(conn) = self.connections.get(remote_node) {
+        let conn = self
+            .connections
+            .get(remote_node)
+            .map(|entry| Arc::clone(entry.value()));
+        if let Some(conn) = conn {
             tracing::trace!("Found connection, sending to rex");
             let mut conn_guard = conn.lock().await;
             conn_guard
